@@ -10,9 +10,16 @@ spellings) whose tokens are in source order, and — composed with the round tri
 for the tree `parse_expr` actually returns on every well-formed expression.
 
 "Source order" is `Gold.C08.Sorted`: every token has `start ≤ end`, and a token that comes earlier in
-the list starts no later and ends no later than one that comes later.  This is WEAKER than what the
-lexer guarantees (`Gold.C05.lex_ordered`: non-empty, pairwise disjoint extents), so the theorems
-cover more than the lexer can produce; disjointness is not needed for any clause below.
+the list starts no later and ends no later than one that comes later.  Disjointness of the tokens is not
+needed for any clause below.  The hypothesis is NOT redundant, and the lexer's line/column ranges do not
+always satisfy it: `Gold.C05.lex_ordered` orders the tokens' EXTENTS in the text, but the range the lexer
+records ends at `start + value.len()` with the length of the value in BYTES, so a string literal holding
+multi-byte characters ends to the right of the tokens that follow it.  For `a = '漢漢漢漢' + b` the lexer
+gives the literal `1:5-1:17` and `b` `1:14-1:15`; the parser builds `bin_op + 1:5-1:15` over the literal's
+node `1:5-1:17` — the parent does NOT enclose its child, on a well-formed program, in the implementation
+(`unsorted_literal` below is this token list; replay: `parse … StringLiteral:漢漢漢漢:1:5:1:17 Plus:+:1:12:1:13
+Identifier:b:1:14:1:15`).  For ASCII text (and whenever `bytes ≤ chars + 2` for every literal) the lexer's
+tokens are `Sorted` and the theorems apply.
 
 * `Tree.rangesOK` (Model/Ranges.lean) — every node of the tree `start ≤ end` (and declarations contain
   their selection range; expression trees have no declaration nodes);
@@ -145,8 +152,18 @@ example : ∃ f t, runP Γ Δ f (.ref nExpr) (sample.toks ++ []) = (.ok [] t, []
   parsed_expr_ranges sample ((wfb_iff _ 8).mp (by decide +kernel)) (sortedB_iff _ (by decide +kernel)) []
     (by intro t r e; cases e) ⟨Kind.Increment, "++", ⟨⟨1, 2⟩, ⟨1, 4⟩⟩⟩ (by decide +kernel)
 
-/-- `Sorted` is needed: with the two operands swapped in the text the binary node has `start > end`,
-    and the checker notices -/
+/-- the tokens the real lexer produces for `'漢漢漢漢' + b` (line 1, after `a =`): the literal's range is 12
+    columns wide (bytes) although the text takes 6, so it is NOT `Sorted` with what follows, and the `+` node
+    does not enclose the literal's node — the enclosure clause of C06 fails on the implementation for this text -/
+private def unsorted_literal : Ex :=
+  .bin (.atom ⟨Kind.StringLiteral, "漢漢漢漢", ⟨⟨1, 5⟩, ⟨1, 17⟩⟩⟩) ⟨Kind.Plus, "+", ⟨⟨1, 12⟩, ⟨1, 13⟩⟩⟩
+    (.atom ⟨Kind.Identifier, "b", ⟨⟨1, 14⟩, ⟨1, 15⟩⟩⟩)
+
+example : unsorted_literal.WF 8 ∧ unsorted_literal.tree.rangesOK = true ∧ unsorted_literal.tree.encloses = false :=
+  ⟨(wfb_iff _ 8).mp (by decide +kernel), by decide +kernel, by decide +kernel⟩
+
+/-- `Sorted` is needed also for `start ≤ end`: with the two operands swapped in the text the binary node has
+    `start > end`, and the checker notices -/
 example : (Ex.bin (idt "a" 5) (tk Kind.Plus "+" 3) (idt "b" 0)).tree.rangesOK = false := by decide +kernel
 
 end Gold.C06
